@@ -70,6 +70,28 @@ fn check_one(c: &One, obs: &mut Obs) {
     if w * h <= 64 {
         iter_protocol("Rectangle::points()", 64, || a.points(), obs);
     }
+    // size_hint of any rectangle (also with 2^31 points and more) brackets the number of points, initially and after
+    // one and after w + 1 items
+    {
+        let total: u128 = if m.is_some() { w as u128 * h as u128 } else { 0 };
+        let mut it = a.points();
+        for taken in [0u128, 1, w as u128 + 1] {
+            let (lo, hi) = it.size_hint();
+            let remaining = total.saturating_sub(taken.min(total));
+            if taken <= w as u128 + 1 && ((lo as u128) > remaining || hi.is_some_and(|h| (h as u128) < remaining)) {
+                obs.fail("points-size_hint-brackets-the-count", format!("after {} items size_hint = ({lo}, {hi:?}) but {remaining} points remain", taken.min(total)));
+            }
+            // advance to the next probe position
+            let next_taken = if taken == 0 { 1 } else { w as u128 + 1 };
+            if taken < next_taken && w <= 4096 {
+                for _ in taken..next_taken {
+                    it.next();
+                }
+            } else if w > 4096 {
+                break;
+            }
+        }
+    }
     if small {
         let got: Vec<(i32, i32)> = a.points().map(|p| (p.x, p.y)).collect();
         let mut want = vec![];
